@@ -473,7 +473,8 @@ func Harness_C19_SortedMap() {
 }
 
 // Harness_C19_PPQDeep: the partitioned priority queue with enough partitions for a heap of
-// depth three (4..P): M items with arbitrary values are pushed into shape-chosen partitions,
+// depth three (4..P): M items with arbitrary values are pushed into shape-chosen partitions
+// (or the partitions hold them already when the queue is built, as after a restore),
 // optionally one of them is deleted again, then the queue is drained. Every Peek/Pop must
 // return the global minimum (so the drain is ascending) and each item exactly once.
 func Harness_C19_PPQDeep() {
@@ -482,7 +483,7 @@ func Harness_C19_PPQDeep() {
 	for i := range parts {
 		parts[i] = &verifPart{}
 	}
-	q := NewPartitionedPriorityQueue(parts, func(a, b *verifPItem) int {
+	cmp := func(a, b *verifPItem) int {
 		if a.val < b.val {
 			return -1
 		}
@@ -490,17 +491,29 @@ func Harness_C19_PPQDeep() {
 			return 1
 		}
 		return 0
-	}, func(x *verifPItem) int { return x.part })
+	}
 	var model []*verifPItem
 	m := verif.Param("M", 4)
+	// the queue is built over empty partitions and filled through Push, or - as after a restore -
+	// over partitions that already hold their items
+	preloaded := verif.Choose("partitions-hold-items-when-the-queue-is-built", 2) == 1
+	var q *PartitionedPriorityQueue[*verifPItem]
+	if !preloaded {
+		q = NewPartitionedPriorityQueue(parts, cmp, func(x *verifPItem) int { return x.part })
+	}
 	for i := 0; i < m; i++ {
 		it := &verifPItem{part: verif.Choose("part", np), val: int(verif.Byte("x"))}
-		q.Push(it)
-		model = append(model, it)
-		if i < m-1 {
-			continue
+		if preloaded {
+			parts[it.part].Push(it)
+		} else {
+			q.Push(it)
 		}
-		got, ok := q.Peek()
+		model = append(model, it)
+	}
+	if preloaded {
+		q = NewPartitionedPriorityQueue(parts, cmp, func(x *verifPItem) int { return x.part })
+	}
+	if got, ok := q.Peek(); true {
 		verif.Assert(ok, "peek-ok")
 		if ok {
 			isMin := true
